@@ -380,10 +380,13 @@ impl<F: Field> Polynomial<F, LagrangeCoeff> {
     /// Rotates the values in a `LagrangeCoeff` polynomial by `Rotation`
     pub fn rotate(&self, rotation: Rotation) -> Polynomial<F, LagrangeCoeff> {
         let mut values = self.values.clone();
+        // Rotations are cyclic: reduce them modulo the domain size (tiny domains
+        // can be smaller than the rotation).
+        let len = values.len().max(1);
         if rotation.0 < 0 {
-            values.rotate_right((-rotation.0) as usize);
+            values.rotate_right((-rotation.0) as usize % len);
         } else {
-            values.rotate_left(rotation.0 as usize);
+            values.rotate_left(rotation.0 as usize % len);
         }
         Polynomial {
             values,
